@@ -67,6 +67,86 @@ def rule_vc(chk, w):
                  fu[0].span.loc())
 
 
+def _root_place(du, o):
+    """(local, field-or-None) behind an origin tree made of refs / field reads / accessor calls"""
+    fld = None
+    while isinstance(o, tuple) and o:
+        if o[0] in ("ref", "deref"):
+            o = o[1]
+        elif o[0] == "field":
+            fld = o[2]
+            o = o[1]
+        elif o[0] == "variant":
+            o = o[1]
+        elif o[0] == "call" and o[2] and re.search(r"::(as_ref|as_deref|recipient_address|deref|borrow|unwrap|"
+                                                   r"expect|clone)$", o[1]):
+            if o[1].endswith("::recipient_address"):
+                fld = ".recipient_address"
+            o = o[2][0]
+        else:
+            break
+    if isinstance(o, tuple) and o and o[0] == "local":
+        return o[1], fld
+    if isinstance(o, tuple) and o and o[0] == "arg":
+        return o[1] + 1, fld
+    return None, fld
+
+
+def _recipient_fixed(chk, w, f):
+    """ZIP 321's per-payment rules relate a parameter to the payment's address, wherever the address
+    parameter stands in the URI. So the address the tests consult must not be (re)assigned in the
+    loop that runs the tests — otherwise the outcome depends on the parameter order."""
+    b = f.body
+    du = defuse.DefUse(b)
+    TESTS = r"ZcashAddress::(is_transparent_only|can_receive_memo)$"
+    found = []          # (test name, block in to_payment, origin of the receiver in to_payment)
+    for bb, t in _calls(b, TESTS):
+        found.append((t.callee.target_p().rsplit("::", 1)[-1], bb, du.origin(t.args[0])))
+    for g in [g for g in w.fns.values() if g.is_closure() and g.root == f.id]:
+        du2 = defuse.DefUse(g.body)
+        for _bb, t in _calls(g.body, TESTS):
+            o = defuse.strip_refs(du2.origin(t.args[0]))
+            if o != ("arg", 1):
+                found.append((t.callee.target_p().rsplit("::", 1)[-1], None, None))
+                continue
+            # the combinator call in to_payment that is handed this closure
+            for bb, t2 in b.calls():
+                if b.blocks[bb].cleanup:
+                    continue
+                if any((lambda x: x[0] == "agg" and x[1] == "closure:" + g.id)(du.origin(a)) for a in t2.args[1:]):
+                    found.append((t.callee.target_p().rsplit("::", 1)[-1], bb, du.origin(t2.args[0])))
+    if not found:
+        chk.fail("RULES", "to_payment/recipient-fixed/missing", "no address-dependent validity test found in "
+                 "to_payment or its closures", f.span.loc())
+        return
+    reach = {}
+    bad = []
+    for name, bb, o in found:
+        if bb is None:
+            bad.append("%s: receiver not traceable to to_payment" % name)
+            continue
+        loc, fld = _root_place(du, o)
+        if loc is None:
+            bad.append("%s: receiver %s not traceable to a local" % (name, defuse.show(o)))
+            continue
+        for kind, db, x in du.defs.get(loc, []):
+            pl = x.place if kind != "call" and hasattr(x, "place") else getattr(x, "dest", None)
+            proj = tuple(pl.proj) if pl is not None else ()
+            if kind == "partial" and fld is not None and proj and proj[0] != fld:
+                continue            # another field of the same struct
+            r1 = reach.setdefault(db, b.reachable(db))
+            r2 = reach.setdefault(bb, b.reachable(bb))
+            if (bb in r1 or bb == db) and (db in r2 or db == bb) and (db != bb or bb in r2):
+                bad.append("%s consults _%d%s, which is assigned in the same loop (%s)"
+                           % (name, loc, fld or "", x.span.loc()))
+    if bad:
+        chk.fail("RULES", "to_payment/recipient-fixed", "the payment rules depend on where the address "
+                 "parameter stands: " + "; ".join(sorted(set(bad))), f.span.loc())
+    else:
+        chk.ok("RULES", "to_payment: the address consulted by %s is fixed before the parameter loop"
+               % sorted({n for n, _b, _o in found}))
+
+
 def rule_rules(chk, w):
     tp = w.by_p.get(Z + "parse::to_payment", [])
     if len(tp) != 1:
@@ -131,6 +211,8 @@ def rule_rules(chk, w):
     else:
         chk.fail("RULES", "to_payment/memo/missing", "can_receive_memo test not found in to_payment",
                  f.span.loc())
+    # the address consulted by the validity tests is fixed before the parameters are examined
+    _recipient_fixed(chk, w, f)
     # duplicates
     fu = w.by_p.get(Z + "TransactionRequest::from_uri", [])
     if len(fu) == 1:
@@ -353,6 +435,149 @@ def rule_grammar(chk, w):
         chk.fail("GRAMMAR", "amount_str/missing", "render::amount_str not found")
 
 
+def _tree_calls(o, acc=None):
+    """callee names in a defuse origin tree"""
+    acc = [] if acc is None else acc
+    if isinstance(o, tuple):
+        if o and o[0] == "call":
+            acc.append(o[1])
+            if o[1].endswith("Engine::decode"):
+                return acc          # what is decoded is judged separately
+        for x in o[1:]:
+            if isinstance(x, (tuple, list)):
+                for y in (x if isinstance(x, list) else [x]):
+                    _tree_calls(y, acc)
+    return acc
+
+
+def _strip_view(o):
+    """through references and Vec/slice views of the same bytes"""
+    while isinstance(o, tuple) and o:
+        if o[0] in ("ref", "deref"):
+            o = o[1]
+        elif o[0] == "call" and re.search(r"Deref>::deref$|::as_slice$|::as_ref$|::borrow$", o[1]) and o[2]:
+            o = o[2][0]
+        else:
+            break
+    return o
+
+
+def rule_memo(chk, w):
+    """Structural necessary conditions of "memo bytes survive the round trip": the renderer encodes
+    exactly MemoBytes::as_slice, the parser decodes the whole parameter with the same base64 engine
+    for every length the renderer can produce, hands the decoded bytes unchanged to
+    MemoBytes::from_bytes, and from_bytes accepts exactly the lengths 0..=N of the memo array."""
+    enc = w.by_p.get(Z + "memo_to_base64", [])
+    dec = w.by_p.get(Z + "memo_from_base64", [])
+    fb = w.by_p.get("zcash_protocol::memo::MemoBytes::from_bytes", [])
+    adt = w.adts.get("zcash_protocol::memo::MemoBytes")
+    m = re.search(r"\[u8; (\d+)\]", adt["variants"][0]["fields"][0]["ty"]) if adt else None
+    if len(enc) != 1 or len(dec) != 1 or len(fb) != 1 or not m:
+        chk.fail("MEMO", "missing", "memo_to_base64 / memo_from_base64 / MemoBytes::from_bytes not found")
+        return
+    n = int(m.group(1))
+    longest = (n * 4 + 2) // 3          # unpadded base64 length of n bytes
+    # renderer
+    b = enc[0].body
+    du = defuse.DefUse(b)
+    ec = _calls(b, r"base64::Engine::encode$")
+    e_engine = None
+    if len(ec) == 1:
+        e_engine = defuse.strip_refs(du.origin(ec[0][1].args[0]))
+        data = du.origin(ec[0][1].args[1])
+        if data[0] == "call" and data[1].endswith("memo::MemoBytes::as_slice") and \
+                defuse.strip_refs(data[2][0]) == ("arg", 0) and e_engine[0] == "constdef":
+            chk.ok("MEMO", "memo_to_base64 encodes MemoBytes::as_slice(memo) with %s" % e_engine[1], sample=True)
+        else:
+            chk.fail("MEMO", "render", "memo_to_base64 encodes %s with %s" % (defuse.show(data), defuse.show(e_engine)),
+                     enc[0].span.loc())
+    else:
+        chk.fail("MEMO", "render/missing", "memo_to_base64 does not call base64 encode exactly once", enc[0].span.loc())
+    # parser: decode site, its engine, its argument, and the lengths it is reached for
+    b = dec[0].body
+    du = defuse.DefUse(b)
+    dc = _calls(b, r"base64::Engine::decode$")
+    if len(dc) != 1:
+        chk.fail("MEMO", "parse/missing", "memo_from_base64 does not call base64 decode exactly once", dec[0].span.loc())
+        return
+    d_engine = defuse.strip_refs(du.origin(dc[0][1].args[0]))
+    d_arg = defuse.strip_refs(du.origin(dc[0][1].args[1]))
+    if d_engine == e_engine and d_arg == ("arg", 0):
+        chk.ok("MEMO", "memo_from_base64 decodes the whole parameter with the renderer's engine")
+    else:
+        chk.fail("MEMO", "parse/decode", "memo_from_base64 decodes %s with %s (renderer: %s)"
+                 % (defuse.show(d_arg), defuse.show(d_engine), defuse.show(e_engine)), dec[0].span.loc())
+    it = A.Interp(w, lambda f: False, {})
+    it.analyse(dec[0])
+    lens = {}
+    for s in it.sites:
+        if s.kind == "unmodelled" and re.search(r"<impl str>::len$|<impl \[T\]>::len$", s.callee or ""):
+            lens[(s.span.line, s.span.col)] = s
+    site = [s for s in it.sites if s.kind == "unmodelled" and (s.callee or "").endswith("base64::Engine::decode")]
+    bad = None
+    if len(site) != 1:
+        bad = "decode site not reached by the abstract interpretation"
+    else:
+        for k, iv in site[0].state.facts.items():
+            txt = str(k)
+            mm = re.search(r"'zip321::memo_from_base64', (\d+), (\d+)\)", txt)
+            if not mm or (int(mm.group(1)), int(mm.group(2))) not in lens:
+                bad = "decoding is conditional on %s, which this rule does not understand" % txt[:80]
+                break
+            if not any(lo <= 0 and hi >= longest for lo, hi in iv.ivs):
+                bad = "decoding is only reached for input lengths %s, but a %d-byte memo renders to %d " \
+                      "characters" % (iv, n, longest)
+                break
+    if bad is None:
+        chk.ok("MEMO", "the decoder is reached for every input length 0..=%d (the rendering of a %d-byte memo)"
+               % (longest, n), sample=True)
+    else:
+        chk.fail("MEMO", "parse/length", bad, dec[0].span.loc())
+    # decoded bytes reach from_bytes unchanged
+    fns = [dec[0]] + [g for g in w.fns.values() if g.is_closure() and g.root == dec[0].id]
+    hits = []
+    for g in fns:
+        du2 = defuse.DefUse(g.body)
+        for _bb, t in _calls(g.body, r"memo::MemoBytes::from_bytes$"):
+            hits.append((g, _strip_view(du2.origin(t.args[0]))))
+    ALLOWED = r"Engine::decode$|::map_err$|::and_then$|::branch$|::from_residual$|Deref>::deref$|::as_slice$"
+    ok, why = False, "no single MemoBytes::from_bytes call"
+    if len(hits) == 1:
+        g, o = hits[0]
+        if g.is_closure() and o == ("arg", 1):
+            # the closure is the argument of a combinator whose receiver is the (error-mapped) decode result
+            recv = [du.origin(t.args[0]) for _bb, t in _calls(b, r"Result::<T, E>::(and_then|map)$")
+                    if any(x == ("agg", "closure:" + g.id, []) or (x[0] == "agg" and x[1] == "closure:" + g.id)
+                           for x in [du.origin(a) for a in t.args[1:]])]
+            src = recv[0] if len(recv) == 1 else None
+        else:
+            src = o
+        calls = _tree_calls(src) if src is not None else []
+        ok = src is not None and any(c.endswith("Engine::decode") for c in calls) and \
+            all(re.search(ALLOWED, c) for c in calls)
+        why = "from_bytes is given %s" % (defuse.show(src) if src is not None else defuse.show(o))
+    if ok:
+        chk.ok("MEMO", "the decoded bytes go unchanged to MemoBytes::from_bytes; only error conversions in between")
+    else:
+        chk.fail("MEMO", "parse/from_bytes", "the decoded bytes do not reach MemoBytes::from_bytes unchanged "
+                 "(%s)" % why,
+                 dec[0].span.loc())
+    # from_bytes accepts exactly 0..=n
+    it = A.Interp(w, lambda f: False, {})
+    it.record_aggs = {"core::result::Result"}
+    it.analyse(fb[0])
+    rng = {}
+    for s in it.sites:
+        if s.kind == "enum-agg" and s.adt == "core::result::Result":
+            fs = list(s.state.facts.values())
+            rng.setdefault(s.variant, []).append(tuple(fs[0].ivs) if len(fs) == 1 else None)
+    if rng.get("Ok") == [((0, n),)] and rng.get("Err") and all(r and r[0][0] == n + 1 for r in rng["Err"]):
+        chk.ok("MEMO", "MemoBytes::from_bytes returns Ok exactly for lengths 0..=%d" % n, sample=True)
+    else:
+        chk.fail("MEMO", "from_bytes/range", "MemoBytes::from_bytes returns Ok for lengths %s and Err for %s; "
+                 "the memo array holds %d bytes" % (rng.get("Ok"), rng.get("Err"), n), fb[0].span.loc())
+
+
 def _str_consts(g):
     out = []
     for blk in g.body.blocks:
@@ -568,8 +793,9 @@ def main(tier):
     chk.trusted = ["rustc MIR", "nom / percent-encoding / base64 behave as documented and do not panic",
                    "C09 for Zatoshis::from_u64", "ZcashAddress::try_from_encoded (C10)"]
     chk.rule("VC-1", "Payment / TransactionRequest only from their constructors", floor=8)
-    chk.rule("RULES", "ZIP 321 rejections are live and cannot be bypassed", floor=10)
+    chk.rule("RULES", "ZIP 321 rejections are live and cannot be bypassed", floor=11)
     chk.rule("GRAMMAR", "index / decimal length limits and checked amount conversion", floor=4)
+    chk.rule("MEMO", "memo rendering and parsing are inverse in shape and admit every memo length", floor=5)
     chk.rule("NAMES", "renderer and parser agree on parameter names", floor=3)
     chk.rule("G", "guards of reviewed panic sites", floor=2)
     chk.rule("PF", "no undischarged class-A panic site", floor=5)
@@ -577,6 +803,7 @@ def main(tier):
     rule_vc(chk, w)
     rule_rules(chk, w)
     rule_grammar(chk, w)
+    rule_memo(chk, w)
     rule_names(chk, w)
     rule_pf(chk, w)
     chk.finish()
